@@ -821,7 +821,246 @@ pub fn run(tier: Tier) -> i32 {
         rep.add_sweep("crowd", sizes.len() as u64, sizes.len() as u64, sizes.len() as u64, vec![format!("{:?} clients on one server: broadcast, broadcast_except, unicast, sliced broadcast, every client sends; one client kicked, one link dead, then a second broadcast ({} library calls)", sizes, steps)]);
         rep.transitions += steps;
     }
+    // recovery class: a connection added after a dirty session was removed behaves like one on a fresh server
+    if rep.machinery.is_none() {
+        let cases = reconnect_cases();
+        let res = explore::par_cases(cases.len(), |i| reconnect_case(cases[i].0, cases[i].1, cases[i].2));
+        let mut steps = 0u64;
+        for (i, r) in res.into_iter().enumerate() {
+            match r {
+                Ok(n) => steps += n,
+                Err(v) => rep.violation("reconnect", v, J::obj().set("kind", J::s("reconnect")).set("case", J::i(i as u64))),
+            }
+        }
+        rep.add_sweep("reconnect", cases.len() as u64, cases.len() as u64, RECONNECT_RECIPES.len() as u64, vec![format!("{} cases: {} states an earlier session is left in x (same id / another id added with add_connection, same id via new_local_client); the new session's standard exchange equals the one on a fresh server ({} library calls)", cases.len(), RECONNECT_RECIPES.len(), steps)]);
+        rep.transitions += steps;
+    }
     rep.finish()
+}
+
+/// Recovery class: a connection is left in a "dirty" state (recipe), removed, and a connection is added again (same or
+/// another client id, fresh peer). The new session must behave exactly like a session on a fresh server: a standard
+/// exchange on every channel in both directions delivers the same messages (differential oracle + exact delivery).
+pub const RECONNECT_RECIPES: [&str; 9] = [
+    "unordered receive stream with a gap (older message lost, younger ones received and consumed)",
+    "ordered receive stream with a gap (younger messages buffered)",
+    "first slices only of a sliced message on every channel",
+    "server-side unacknowledged small and sliced messages",
+    "messages received but not drained",
+    "many pending acknowledgement ranges",
+    "disconnected by a hostile packet",
+    "kicked by the server while messages were in flight both ways",
+    "all of the above",
+];
+
+pub fn reconnect_case(recipe: usize, same_id: bool, via_local_client: bool) -> Result<u64, Violation> {
+    let bad = |sig: &str, msg: String| {
+        Violation::new(format!("C11/reconnect/{}", sig), format!("earlier session left: {}; {} id reconnects: {}", RECONNECT_RECIPES[recipe], if same_id { "the same" } else { "another" }, msg))
+    };
+    let dt = Duration::from_millis(DT);
+    let mut steps = 0u64;
+    // the standard exchange: returns what each side obtained per channel
+    let exchange = |srv: &mut RenetServer, id: u64, peer: &mut RenetClient, steps: &mut u64| -> Result<Vec<Vec<Vec<u8>>>, Violation> {
+        let mut got: Vec<Vec<Vec<u8>>> = vec![vec![]; 6];
+        for round in 0..3u16 {
+            for ch in 0..3u8 {
+                for (k, len) in [(0u16, 9usize), (1, 2500)] {
+                    let down = body(100 + round * 10 + k, ch, true, 0, len);
+                    let up = body(200 + round * 10 + k, ch, false, 0, len + 3);
+                    guard("send_message", || srv.send_message(id, ch, down))?;
+                    guard("client send_message", || peer.send_message(ch, up))?;
+                }
+            }
+            for _ in 0..5 {
+                guard("exchange tick", || {
+                    peer.update(dt);
+                    for p in peer.get_packets_to_send() {
+                        let _ = srv.process_packet_from(&p, id);
+                    }
+                    srv.update(dt);
+                    for p in srv.get_packets_to_send(id).unwrap_or_default() {
+                        peer.process_packet(&p);
+                    }
+                })?;
+                *steps += 4;
+                for ch in 0..3u8 {
+                    while let Some(m) = guard("receive_message", || srv.receive_message(id, ch))? {
+                        got[ch as usize].push(m.to_vec());
+                    }
+                    while let Some(m) = guard("client receive_message", || peer.receive_message(ch))? {
+                        got[3 + ch as usize].push(m.to_vec());
+                    }
+                }
+            }
+        }
+        if let Some(r) = srv.disconnect_reason(id) {
+            return Err(bad("new-session-disconnected", format!("server side of the new session: {:?}", r)));
+        }
+        if let Some(r) = peer.disconnect_reason() {
+            return Err(bad("new-session-disconnected", format!("client side of the new session: {:?}", r)));
+        }
+        Ok(got)
+    };
+    // reference: the same exchange on a fresh server
+    let reference = {
+        let mut srv = RenetServer::new(config());
+        srv.add_connection(7);
+        let mut peer = RenetClient::new(config());
+        peer.set_connected();
+        let mut n = 0u64;
+        exchange(&mut srv, 7, &mut peer, &mut n)?
+    };
+    for (i, g) in reference.iter().enumerate() {
+        if g.len() != 6 {
+            return Err(bad("fixture", format!("reference exchange delivered {} of 6 messages on stream {}", g.len(), i)));
+        }
+    }
+    // the dirty session
+    let old_id = 7u64;
+    let mut srv = RenetServer::new(config());
+    srv.add_connection(old_id);
+    let mut old = RenetClient::new(config());
+    old.set_connected();
+    let parts: Vec<usize> = if recipe == 8 { (0..8).collect() } else { vec![recipe] };
+    for part in parts {
+        guard("dirty session", || {
+            let deliver_up = |srv: &mut RenetServer, old: &mut RenetClient, keep: &dyn Fn(usize, &PktInfo) -> bool| {
+                old.update(dt);
+                for (k, p) in old.get_packets_to_send().into_iter().enumerate() {
+                    let (_, info, _) = decode(&p);
+                    if keep(k, &info) {
+                        let _ = srv.process_packet_from(&p, old_id);
+                    }
+                }
+            };
+            match part {
+                0 | 1 => {
+                    let ch = if part == 0 { 2u8 } else { 1u8 };
+                    old.send_message(ch, body(1, ch, false, 0, 20));
+                    deliver_up(&mut srv, &mut old, &|_, _| false);
+                    old.send_message(ch, body(2, ch, false, 0, 20));
+                    old.send_message(ch, body(3, ch, false, 0, 2500));
+                    // the first message is not yet due again: only the younger ones travel
+                    deliver_up(&mut srv, &mut old, &|_, info| !matches!(info, PktInfo::SmallReliable { msgs, .. } if msgs.iter().any(|(id, _)| *id == 0)));
+                    while srv.receive_message(old_id, ch).is_some() {}
+                }
+                2 => {
+                    for ch in 0..3u8 {
+                        old.send_message(ch, body(4, ch, false, 0, 3000));
+                    }
+                    deliver_up(&mut srv, &mut old, &|_, info| matches!(info, PktInfo::ReliableSlice { idx: 0, .. } | PktInfo::UnreliableSlice { idx: 0, .. }));
+                }
+                3 => {
+                    for ch in 0..3u8 {
+                        srv.send_message(old_id, ch, body(5, ch, true, 0, 30));
+                        srv.send_message(old_id, ch, body(6, ch, true, 0, 2600));
+                    }
+                    srv.update(dt);
+                    let _ = srv.get_packets_to_send(old_id);
+                }
+                4 => {
+                    for ch in 0..3u8 {
+                        old.send_message(ch, body(7, ch, false, 0, 40));
+                        old.send_message(ch, body(8, ch, false, 0, 2700));
+                    }
+                    deliver_up(&mut srv, &mut old, &|_, _| true);
+                }
+                5 => {
+                    for k in 0..40u16 {
+                        old.send_message(0u8, body(9 + k, 0, false, 0, 1100));
+                    }
+                    deliver_up(&mut srv, &mut old, &|k, _| k % 2 == 0);
+                    while srv.receive_message(old_id, 0u8).is_some() {}
+                }
+                6 => {
+                    let _ = srv.process_packet_from(&[9, 9, 9], old_id);
+                }
+                _ => {
+                    for ch in 0..3u8 {
+                        srv.send_message(old_id, ch, body(60, ch, true, 0, 2600));
+                        old.send_message(ch, body(61, ch, false, 0, 2600));
+                    }
+                    deliver_up(&mut srv, &mut old, &|k, _| k % 2 == 1);
+                    srv.disconnect(old_id);
+                }
+            }
+        })?;
+    }
+    steps += 20;
+    while srv.get_event().is_some() {}
+    guard("remove_connection", || srv.remove_connection(old_id))?;
+    let new_id = if same_id { old_id } else { 8 };
+    let mut peer;
+    if via_local_client {
+        peer = guard("new_local_client", || srv.new_local_client(new_id))?;
+    } else {
+        guard("add_connection", || srv.add_connection(new_id))?;
+        peer = RenetClient::new(config());
+        peer.set_connected();
+    }
+    if !srv.is_connected(new_id) {
+        return Err(bad("new-session-not-connected", format!("is_connected({}) is false right after the connection was added", new_id)));
+    }
+    let got = if via_local_client {
+        // a local client is pumped through process_local_client instead of packets
+        let mut got: Vec<Vec<Vec<u8>>> = vec![vec![]; 6];
+        for round in 0..3u16 {
+            for ch in 0..3u8 {
+                for (k, len) in [(0u16, 9usize), (1, 2500)] {
+                    let down = body(100 + round * 10 + k, ch, true, 0, len);
+                    let up = body(200 + round * 10 + k, ch, false, 0, len + 3);
+                    guard("send_message", || srv.send_message(new_id, ch, down))?;
+                    guard("client send_message", || peer.send_message(ch, up))?;
+                }
+            }
+            for _ in 0..5 {
+                guard("local tick", || {
+                    peer.update(dt);
+                    srv.update(dt);
+                    let _ = srv.process_local_client(new_id, &mut peer);
+                })?;
+                steps += 3;
+                for ch in 0..3u8 {
+                    while let Some(m) = guard("receive_message", || srv.receive_message(new_id, ch))? {
+                        got[ch as usize].push(m.to_vec());
+                    }
+                    while let Some(m) = guard("client receive_message", || peer.receive_message(ch))? {
+                        got[3 + ch as usize].push(m.to_vec());
+                    }
+                }
+            }
+        }
+        got
+    } else {
+        exchange(&mut srv, new_id, &mut peer, &mut steps)?
+    };
+    for (i, (g, r)) in got.iter().zip(reference.iter()).enumerate() {
+        let (dirn, ch) = if i < 3 { ("client -> server", i) } else { ("server -> client", i - 3) };
+        let mut gs = g.clone();
+        let mut rs = r.clone();
+        if ch != 1 {
+            gs.sort();
+            rs.sort();
+        }
+        if gs != rs {
+            return Err(bad(
+                "new-session-differs-from-a-fresh-one",
+                format!("{} channel {}: the new session obtained {} messages (lengths {:?}), a session on a fresh server obtains {} (lengths {:?})", dirn, ch, g.len(), g.iter().map(|m| m.len()).collect::<Vec<_>>(), r.len(), r.iter().map(|m| m.len()).collect::<Vec<_>>()),
+            ));
+        }
+    }
+    Ok(steps)
+}
+
+pub fn reconnect_cases() -> Vec<(usize, bool, bool)> {
+    let mut v = vec![];
+    for recipe in 0..RECONNECT_RECIPES.len() {
+        for same in [true, false] {
+            v.push((recipe, same, false));
+        }
+        v.push((recipe, true, true));
+    }
+    v
 }
 
 /// n clients on one server; who obtains what, at scale.
@@ -960,6 +1199,22 @@ pub fn crowd_case(n: usize) -> Result<u64, Violation> {
 }
 
 pub fn replay(j: &J) -> i32 {
+    if j.get("kind").and_then(|k| k.as_str()) == Some("reconnect") {
+        let cases = reconnect_cases();
+        let i = j.get("case").and_then(|x| x.as_i()).unwrap_or(0) as usize;
+        let Some(c) = cases.get(i) else { return 2 };
+        println!("reconnect case: earlier session left '{}', same id {}, via local client {}", RECONNECT_RECIPES[c.0], c.1, c.2);
+        return match reconnect_case(c.0, c.1, c.2) {
+            Err(v) => {
+                println!("RESULT: violation {} — {}", v.signature, v.message);
+                1
+            }
+            Ok(_) => {
+                println!("RESULT: no violation");
+                0
+            }
+        };
+    }
     if j.get("kind").and_then(|k| k.as_str()) == Some("crowd") {
         let n = j.get("clients").and_then(|x| x.as_i()).unwrap_or(256) as usize;
         println!("crowd case: {} clients", n);
